@@ -23,6 +23,9 @@ type Engine struct {
 	purePkgs     map[string]bool
 	constGlobal  map[*ssa.Global]bool
 	nonNilGlobal map[*ssa.Global]bool
+	privFields   map[string]*PrivField
+	privByID     map[int]*PrivField
+	reach        map[string]map[string]bool
 	mu           sync.Mutex
 	cellableC    map[*ssa.Alloc]bool
 	loopC        map[*ssa.Function]*loopInfo
@@ -53,6 +56,7 @@ func NewEngine(prog *Program, cs *ContractSet) *Engine {
 	e.findConstGlobals()
 	e.checkTypeInvs()
 	e.checkImmutable()
+	e.computePrivateFields()
 	e.findNonNilGlobals()
 	return e
 }
